@@ -25,8 +25,9 @@ Reads with options (read_mesh_only / read_npy / save) are operations of the hist
 (theorems C05_read_opt_safe, C05_history_inv_opt, C05_crash_safe_opt; the slip "a mesh-only read trusts the mere existence of
 the node and element files" is C05_mesh_only_by_existence_counterexample).
 Oracle: a read returns the parse of the source or exactly one completely saved object (mesh-only read: the node and element
-tables of one of them); save -> load reproduces every group exactly (digests over float.hex / ints / strings by id; settings
-of every value kind by value)."""
+tables of one of them); save -> load reproduces every group exactly (digests over float.hex / ints / strings by id, the
+time_series flag of every variable; settings of every value kind by value).  Time series are inside the oracle: the key
+scheme (Model/NpyKeys.lean) has a third key "<prefix>/time_series"; whether the tree writes it is detected (ts_flag)."""
 import collections
 import contextlib
 import errno
@@ -49,16 +50,21 @@ THEOREMS = ['C05_full_save_plan', 'C05_crash_inv_plan', 'C05_history_inv_plan', 
             'C05_staged_sorted_counterexample', 'C05_staged_marker_last_good',
             'C05_full_save', 'C05_crash_inv', 'C05_save_inv', 'C05_read_inv', 'C05_history_inv', 'C05_crash_safe',
             'C05_cache_transparent', 'C05_load_complete_save', 'C05_crash_counterexample_upstream',
-            'C05_stale_counterexample_upstream', 'split_join', 'C05_keys_attr_roundtrip', 'C05_keys_roundtrip',
+            'C05_stale_counterexample_upstream', 'split_join', 'C05_keys_attr_roundtrip',
+            'C05_keys_time_series_flag_roundtrip', 'C05_keys_roundtrip',
             'C05_keys_elements_roundtrip', 'C05_keys_elemental_collection_roundtrip',
             'C05_keys_counterexample_substring_type', 'C05_keys_counterexample_ids_in_name',
+            'C05_keys_counterexample_no_flag',
             'C05_read_opt_default', 'C05_read_opt_inv', 'C05_read_opt_safe', 'C05_history_inv_opt', 'C05_crash_safe_opt',
             'C05_mesh_only_by_existence_counterexample']
 PARTIAL = ['key scheme theorems (C05_keys_*) treat array payloads as opaque tags: numpy.savez / numpy.load exactness is trusted; names / '
-           'types containing "/" are excluded by hypothesis (femio itself cannot load them)',
+           'types containing "/" are excluded by hypothesis (femio itself cannot load them); the time_series flag is a Bool of the '
+           'model attribute, the shape (T, n, w) is part of the opaque data payload; C05_keys_* are stated for Cfg.fixed (three-key '
+           'scheme); which scheme the tree has (Cfg.tsFlag) is detected from the behaviour of FEMAttribute.to_dict and the tie is made '
+           'against that Cfg - on a two-key tree the theorems about the flag do not apply and the oracle reports F6d',
            'torn writes inside one np.savez are modelled as "file present but unreadable" (a crash point), not byte-level',
            'read options: read_mesh_only / read_npy / save of read_directory are modelled (readOpt) and part of the histories; other '
-           'options (time_series, recursive, stem, read_res) keep their defaults; a mesh-only read is compared by its node and '
+           'options (time_series of read_directory, recursive, stem, read_res) keep their defaults; a mesh-only read is compared by its node and '
            'element tables only (the face table a polyhedral cache adds is not part of the directory machine)',
            'clean-up effects performed while an exception unwinds the stack are a traced parameter of the *_unwind theorems '
            '(hypothesis GoodUnwind, evaluated on every interrupted run), not derived from the source of save()',
@@ -87,7 +93,12 @@ RULE = ('seeded histories (quick <= 6 ops, thorough <= 10) over read | save X [m
         'points x {death, death torn, exception before / torn / after} x mesh-only of a second save and of a first read; a case = one '
         'operation; non-trivial = the operation changed the directory or was a read served from the cache; the unwind tie leaves the '
         'save of every combination of empty / non-empty groups x mesh-only by an exception at every effect; plus a '
-        'save->load exactness stream over uniform/mixed (incl. tet+tet2), ragged polyhedral, rank 1-3, string-valued settings, 30% '
+        'save->load exactness stream over uniform/mixed (incl. tet+tet2), ragged polyhedral, rank 1-3, string-valued settings, '
+        '20% with time series (FEMAttribute(time_series=True), data (T, n, w) with T in 1..3 or T == n, w in 1, 3: nodal under the '
+        'names ts / time_series / T_series (15% of all cases also have an ORDINARY nodal variable called time_series / my_time_series) and / or elemental (meshes of one element type); ids, data, shape AND the time_series flag of '
+        'every variable are compared), a third of the saved objects of every history (A, B, the poisoned N; sweeps and fixed '
+        'histories included) carries such series on a tree that writes the time_series key (detected: extra.cfg_detected; a '
+        'two-key tree cannot load them - known finding F6d, reported by the exactness stream - and its histories go without), 30% '
         'into a (nested) target directory that does not exist yet; '
         'in that stream 40% of the nodal / elemental / constraint variables are stored under a dict key that differs from their '
         'FEMAttribute.name (incl. several keys sharing one name; attrs[key] = a or attrs.update({key: a})) and must load back '
@@ -149,10 +160,31 @@ def canon(a):
 
 
 def attr_digest(a):
+    """ids, data (shape and bit patterns) and the time_series flag of a FEMAttribute (per element type for elemental data)"""
     from femio import FEMElementalAttribute
     if isinstance(a, FEMElementalAttribute):
-        return {t: (canon(v.ids), canon(v.data)) for t, v in a.items()}
-    return (canon(a.ids), canon(a.data))
+        return {t: (canon(v.ids), canon(v.data), bool(getattr(v, 'time_series', False))) for t, v in a.items()}
+    return (canon(a.ids), canon(a.data), bool(getattr(a, 'time_series', False)))
+
+
+_TS_FLAG = {}
+
+
+def ts_flag():
+    """Cfg.tsFlag of the tree under test, detected from behaviour: does FEMAttribute.to_dict write a key for the time_series
+    flag of a time series (repair of F6d)?  1: the three-key scheme; 0: the two-key scheme, which has no place for the flag -
+    a time series can be saved but not loaded (known finding load-raises:time-series)"""
+    if 'v' not in _TS_FLAG:
+        from femio import FEMAttribute
+        try:
+            a = FEMAttribute('p', ids=np.array([1, 2]), data=np.zeros((3, 2, 1)), silent=True, time_series=True)
+            _TS_FLAG['v'] = int(any(k.endswith('time_series') for k in a.to_dict('p')))
+        except Exception:
+            _TS_FLAG['v'] = 0
+    return _TS_FLAG['v']
+
+
+F6D_SIG = 'load-raises:time-series'
 
 
 def settings_digest(s):
@@ -560,11 +592,14 @@ def edit_in_place(r, a, how, new, attrs=None, key=None):
 
 
 def make_obj(r, tag, has_nodal_extra=True, has_elemental=True, has_constraints=True, types=None, drop_node_entry=False,
-             ranks=(1, 2, 3), time_series=False, edits=None):
+             ranks=(1, 2, 3), time_series=False, edits=None, series=None):
     """edits (a dict, filled in; exactness stream only): a share of the variables is stored under a dict key that differs
     from its FEMAttribute.name (incl. two keys sharing one name), constraints get a second variable of rank 1 / 3, and a
     share of the nodal / elemental / constraint variables goes through one public in-place update (EDITS) after it was
-    attached - the object that is saved is the one these calls leave behind"""
+    attached - the object that is saved is the one these calls leave behind.
+    time_series: the object also carries time series (FEMAttribute(..., time_series=True), data of shape (T, n, w)): a nodal
+    one when it has nodal variables, an elemental one when it has elemental variables and one element type; `series`
+    (a list, filled in): [family, key, shape per type]"""
     from femio import FEMAttribute, FEMAttributes
     types = types or r.choice([['tet'], ['hex'], ['tet', 'hex'], ['tet', 'tet2'], ['hex', 'hex2', 'prism'], ['tri', 'quad'],
                                ['line', 'tet', 'pyr']])
@@ -629,9 +664,19 @@ def make_obj(r, tag, has_nodal_extra=True, has_elemental=True, has_constraints=T
             for name in r.sample(NAMES_N, r.randint(1, 2)):
                 attach(fd.nodal_data, name, FEMAttribute(attr_name('nodal', name, NAMES_N), ids=nids, data=arr(n, r.choice(ranks)),
                                                          silent=True))
+            if edits is not None and r.random() < .15:
+                # an ORDINARY variable whose name is / ends with the word the key of the flag ends with
+                key = r.choice(['time_series', 'my_time_series'])
+                attach(fd.nodal_data, key, FEMAttribute(key, ids=nids, data=arr(n, r.choice(ranks)), silent=True))
+                edits.setdefault('ordinary variable named like the flag key', []).append(key)
             if time_series:
-                fd.nodal_data['ts'] = FEMAttribute('ts', ids=nids, data=np.stack([arr(n, 1)[:, None] for _ in range(3)]),
-                                                   silent=True, time_series=True)
+                # T = n: the shape alone looks like ordinary (n, n, w) tensor data
+                key = r.choice([k2 for k2 in ('ts', 'time_series', 'T_series') if k2 not in fd.nodal_data])
+                T, w = r.choice([1, 2, 3, 3, n]), r.choice([1, 3])
+                fd.nodal_data[key] = FEMAttribute(key, ids=nids, data=np.stack([vals((n, w)) for _ in range(T)]),
+                                                  silent=True, time_series=True)
+                if series is not None:
+                    series.append(['nodal', key, [T, n, w]])
         if has_elemental:
             eids = fd.elements.ids
             for name in r.sample(NAMES_E, r.randint(1, 2)):
@@ -641,6 +686,16 @@ def make_obj(r, tag, has_nodal_extra=True, has_elemental=True, has_constraints=T
                 attach(fd.elemental_data, name, FEMElementalAttribute(aname, {
                     t: FEMAttribute(aname, ids=v.ids, data=arr(len(v.ids), rank), silent=True)
                     for t, v in fd.elements.items()}))
+            if time_series and len(fd.elements.keys()) == 1 and (not has_nodal_extra or r.random() < .7):
+                # (one element type: femio cannot even build a FEMElementalAttribute over several types from time series)
+                from femio import FEMElementalAttribute
+                key = r.choice(['ets', 'strain_series'])
+                T, w = r.choice([1, 2, 3]), r.choice([1, 3])      # T == number of elements of a type happens by itself
+                fd.elemental_data[key] = FEMElementalAttribute(key, {
+                    t: FEMAttribute(key, ids=v.ids, data=np.stack([vals((len(v.ids), w)) for _ in range(T)]), silent=True,
+                                    time_series=True) for t, v in fd.elements.items()})
+                if series is not None:
+                    series.append(['elemental', key, {t: [T, len(v.ids), w] for t, v in fd.elements.items()}])
         if has_constraints:
             sel = np.array(sorted(r.sample([int(i) for i in nids], r.randint(1, n))))
             d = arr(len(sel), 2)
@@ -903,12 +958,25 @@ def run_history(ctx, hid, ops_fixed=None, setup=None):
     with contextlib.redirect_stdout(io.StringIO()):      # what a mesh-only parse of the source gives (nothing is written)
         parse_mesh = mesh_digest(digest(FEMData.read_directory(ft, d, read_npy=False, save=False, read_mesh_only=True)))
     full = bool(setup.get('full'))
+    # time series are objects like every other: a third of the saved objects carries a nodal / elemental one (the draw is made
+    # on every tree; a tree whose key scheme has no place for the flag - ts_flag() == 0, known finding F6d, reported by the
+    # exactness stream - cannot load what it saved, so there the objects of the histories stay without, and it is counted)
+    ts_a, ts_b = r.random() < .35, r.random() < .35
+    if not ts_flag():
+        ctx.count('history objects: time series left out (this tree writes no time_series key: F6d)', int(ts_a) + int(ts_b))
+        ts_a = ts_b = False
+    sers = {2: [], 3: [], 4: []}
     A, _ = make_obj(r, 2, has_nodal_extra=r.random() < .8 or full, has_elemental=r.random() < .6 or full,
                     has_constraints=r.random() < .6 or full,
-                    types=r.choice([['tet'], ['hex'], ['tet', 'hex']]), drop_node_entry=r.random() < .3)
+                    types=r.choice([['tet'], ['hex'], ['tet', 'hex']]), drop_node_entry=r.random() < .3, time_series=ts_a,
+                    series=sers[2])
     B, _ = make_obj(r, 3, has_nodal_extra=r.random() < .5 or full, has_elemental=r.random() < .4 or full,
                     has_constraints=r.random() < .4 or full,
-                    types=r.choice([['tet'], ['hex', 'prism']]), drop_node_entry=r.random() < .5)
+                    types=r.choice([['tet'], ['hex', 'prism']]), drop_node_entry=r.random() < .5, time_series=ts_b,
+                    series=sers[3])
+    for t2 in (2, 3):
+        for fam, _key, _shape in sers[t2]:
+            ctx.count(f'history objects: {fam} time series')
     objs_fd = {1: parse, 2: A, 3: B}
     objs = {t: (digest(fd), flags(fd)) for t, fd in objs_fd.items()}
     refs = {t: ref_file_digests(fd) for t, fd in objs_fd.items()}
@@ -946,7 +1014,8 @@ def run_history(ctx, hid, ops_fixed=None, setup=None):
         if poisoned.get('how') != how:
             if 4 not in objs_fd:
                 N, _ = make_obj(r, 4, has_nodal_extra=True, has_elemental=r.random() < .5, has_constraints=r.random() < .5,
-                                types=r.choice([['tet'], ['hex']]))
+                                types=r.choice([['tet'], ['hex']]), time_series=bool(ts_flag()) and r.random() < .35,
+                                series=sers[4])
                 objs_fd[4] = N
             elif 'key' in poisoned:
                 objs_fd[4].settings.pop(poisoned['key'])
@@ -989,6 +1058,7 @@ def run_history(ctx, hid, ops_fixed=None, setup=None):
         after = observe_dir(d, refs)
         op_events.append([' + '.join(f'{k2} {f}' for k2, f in e) or '-' for e in LAST.get('events', [])])
         case = {'history': hist[:], 'flags': {str(t2): list(o[1]) for t2, o in objs.items()}, 'setup': setup,
+                'time_series': {str(t2): v for t2, v in sers.items() if v},
                 'events_performed_per_operation (- = touches no cache file of the directory)': op_events[:],
                 'rng_state': rng_state}
         if inj is not None:
@@ -1154,29 +1224,41 @@ def exactness(ctx, k):
         d = d / 'new' / 'cache dir'
         ctx.count('exactness: target directory does not exist yet')
     edits = {}
-    ts = r.random() < .12
+    ts = r.random() < .2
     poly = (not ts) and r.random() < .15
+    series = []
     if poly:
         m = mg.gen_geometric(r, kind=r.choice(['tet', 'hex']), max_cells=1, jitter=False, unref=False)
         fd = mg.quiet(mg.to_femio(m).to_polyhedron)
         fd.settings.update({'tag': 9, 'name': 'poly mesh'})
         kind = 'polyhedron'
     else:
-        fd, m = make_obj(r, 4 + k % 5, has_nodal_extra=r.random() < .85, has_elemental=r.random() < .7,
-                         has_constraints=r.random() < .5, time_series=ts, edits=edits)
+        hn, he = r.random() < .85, r.random() < .7
+        # (an elemental time series needs a mesh of one element type: 60% of the time-series cases have one)
+        single = ts and r.random() < .6
+        fd, m = make_obj(r, 4 + k % 5, has_nodal_extra=hn or ts, has_elemental=he or single,
+                         has_constraints=r.random() < .5, time_series=ts, edits=edits, series=series,
+                         types=[r.choice(['tet', 'hex', 'tri', 'quad', 'tet2', 'prism', 'pyr'])] if single else None)
         kind = '+'.join(m['blocks'])
     key_tie(ctx, fd)
     want = digest(fd)
-    case = {'kind': kind, 'time_series': ts, 'nodal': list(fd.nodal_data.keys()), 'elemental': list(fd.elemental_data.keys()),
+    case = {'kind': kind, 'time_series': ts, 'series (family, key, [T, n, w])': series, 'time_series_key_written_by_this_tree': ts_flag(),
+            'nodal': list(fd.nodal_data.keys()), 'elemental': list(fd.elemental_data.keys()),
             'constraints': list(fd.constraints.keys()), **edits,
             'shapes': {g: {k2: list(np.shape(v.data)) for k2, v in getattr(fd, g).items()} for g in ('nodal_data', 'constraints')},
             'mesh': mg.to_json(m), 'exactness_case': k, 'rng_state': [state[0], list(state[1]), state[2]]}
     ctx.case(('exact', k), sample={k2: case[k2] for k2 in ('kind', 'time_series', 'nodal', 'elemental', 'constraints', *edits)},
              nontrivial=True)
     ctx.count('exactness:' + ('time-series' if ts else 'polyhedron' if poly else ('mixed' if '+' in kind else 'uniform')))
+    for fam, _key, shape in series:
+        shapes = [shape] if fam == 'nodal' else list(shape.values())
+        ctx.count(f'exactness: {fam} time series' + (', T == number of ids (shape looks like tensor data)'
+                                                     if any(sh[0] == sh[1] for sh in shapes) else ''))
     for k2 in fd.settings:
         if k2.startswith('s_'):
             ctx.count('exactness: setting kind: ' + k2[2:].replace('_', ' '))
+    for key in edits.get('ordinary variable named like the flag key', []):
+        ctx.count('exactness: ordinary nodal variable named ' + key)
     for fam, key, name in edits.get('key != FEMAttribute.name', []):
         ctx.count(f'exactness: key != FEMAttribute.name: {fam}' + (' (shared name)' if name == 'shared' else ''))
     for kind2, rank in edits.get('variable kinds', []):
@@ -1190,13 +1272,21 @@ def exactness(ctx, k):
     except Exception as e:
         sig = 'load-raises:' + ('time-series' if ts else 'substring-type' if any(a in b and a != b for a in m['blocks'] for b in m['blocks']) else 'other')
         ctx.fail(sig, f'save -> load of a {kind} mesh (nodal {case["nodal"]}, elemental {case["elemental"]}'
-                 f'{", time series" if ts else ""}) raised {type(e).__name__}: {e}', case, None)
+                 + (f', time series {series}; this tree writes {"a" if ts_flag() else "NO"} time_series key' if ts else '')
+                 + f') raised {type(e).__name__}: {e}', case, None)
         return
     got = digest(back)
     for g in want:
         if got[g] != want[g]:
-            ctx.fail(f'load-differs:{g}' + (':time-series' if ts else ''), f'save -> load changed the {g} of a {kind} mesh'
-                     + first_diff(want[g], got[g]), case, {'want': repr(want[g])[:400], 'got': repr(got[g])[:400]})
+            sig = f'load-differs:{g}' + (':time-series' if ts else '')
+            note = ''
+            if ts and not ts_flag() and g in ('nodal', 'elemental'):
+                # the two-key scheme has no place for the flag (F6d): where T happens to equal the number of ids the length test
+                # of the loader passes and the series comes back as ordinary (n, n, w) data - the same defect, same signature
+                sig = F6D_SIG
+                note = ' (this tree writes no time_series key: the flag cannot come back - F6d)'
+            ctx.fail(sig, f'save -> load changed the {g} of a {kind} mesh' + first_diff(want[g], got[g]) + note, case,
+                     {'want': repr(want[g])[:400], 'got': repr(got[g])[:400]})
             return
     # the same cache loaded with read_mesh_only=True: the node and element tables (and the face table of polyhedral data)
     try:
@@ -1233,30 +1323,52 @@ def first_diff(want, got):
             return f': {k!r} saved for types {sorted(w)}, loaded for {sorted(g)}'
         t = next(t for t in w if w[t] != g[t])
         k, w, g = f'{k}[{t}]', w[t], g[t]
-    if not (isinstance(w, tuple) and len(w) == 2 and isinstance(w[1], tuple)):
+    if not (isinstance(w, tuple) and len(w) == 3 and isinstance(w[1], tuple)):
         return f': {k!r}'
     if w[0] != g[0]:
         return f': ids of {k!r} differ'
     if w[1][1] != g[1][1]:
         return f': data of {k!r} had shape {w[1][1]} when saved, {g[1][1]} after loading'
+    if w[2] != g[2]:
+        return f': {k!r} had time_series={w[2]} when saved, time_series={g[2]} after loading'
     return f': values of {k!r} differ'
 
 
+def real_kind(k):
+    """how FEMAttribute.from_dict of the tree classifies the key k: 's' the time_series flag, 'i' ids, 'd' data, 'x' none of
+    them (it raises) - found from its behaviour on three dicts in which k is the only key of unknown kind"""
+    from femio import FEMAttribute
+    trials = (('i', {k: np.array([1]), 'zz/data': np.array([2.])}, lambda a: int(a.ids[0]) == 1 and not a.time_series),
+              ('d', {k: np.array([2.]), 'zz/ids': np.array([1])}, lambda a: float(a.data[0]) == 2. and not a.time_series),
+              ('s', {k: np.array(True), 'zz/ids': np.array([1]), 'zz/data': np.array([[[2.]]])}, lambda a: bool(a.time_series)))
+    for kind, dic, ok in trials:
+        try:
+            with contextlib.redirect_stdout(io.StringIO()):
+                if ok(FEMAttribute.from_dict('x', dic, silent=True)):
+                    return kind
+        except Exception:
+            pass
+    return 'x'
+
+
 def key_tie(ctx, fd):
-    """tie T/D for Model/NpyKeys.lean: the keys femio writes and how it splits / classifies them on load"""
+    """tie T/D for Model/NpyKeys.lean: the keys femio writes (time series: the third key, on a tree that writes one -
+    Cfg.tsFlag, see ts_flag) and how it splits / classifies them on load"""
     if ctx.driver is None:
         return
     from femio import FEMElementalAttribute
+    f = ts_flag()
     ed = fd.elemental_data
     if len(ed) and all(isinstance(v, FEMElementalAttribute) for v in ed.values()):
         real = list(ed.to_dict().keys())
-        line = 'c05k.todict ' + C.enc_list(ed.items(), lambda nv: C.esc(nv[0]) + ' ' + C.enc_list(nv[1].keys(), C.esc))
+        line = f'c05k.todict {f} ' + C.enc_list(ed.items(), lambda nv: C.esc(nv[0]) + ' ' + C.enc_list(
+            nv[1].items(), lambda ta: f'{C.esc(ta[0])} {int(bool(ta[1].time_series))}'))
         t = C.Toks(ctx.driver.ask(line))
         assert t.tok() == 'ok'
         model = [C.unesc(x) for x in t.lst(t.tok)]
-        ctx.count('key-tie:elemental')
+        ctx.count('key-tie:elemental' + (' (with a time series)' if any(a.time_series for v in ed.values() for a in v.values()) else ''))
         if model != real:
-            ctx.disagree('keys written for elemental data', {'names': list(ed.keys())}, real, model)
+            ctx.disagree('keys written for elemental data', {'names': list(ed.keys()), 'tsFlag': f}, real, model)
         # the per-type split of one variable, as femio does it now
         for name, v in ed.items():
             sub = {k: 0 for k in real if k.split('/')[0] == name}
@@ -1272,25 +1384,83 @@ def key_tie(ctx, fd):
                     ctx.disagree('entries selected for element type ' + ty, {'keys': list(sub)}, list(split.get(ty, {}).keys()), m)
     nd = fd.nodal_data
     real = list(nd.to_dict().keys())
-    t = C.Toks(ctx.driver.ask('c05k.ntodict ' + C.enc_list(nd.keys(), C.esc)))
+    t = C.Toks(ctx.driver.ask(f'c05k.ntodict {f} ' + C.enc_list(nd.items(), lambda na: f'{C.esc(na[0])} {int(bool(na[1].time_series))}')))
     assert t.tok() == 'ok'
     model = [C.unesc(x) for x in t.lst(t.tok)]
-    ctx.count('key-tie:nodal')
+    ctx.count('key-tie:nodal' + (' (with a time series)' if any(a.time_series for a in nd.values()) else ''))
     if model != real:
-        ctx.disagree('keys written for nodal data', {'names': list(nd.keys())}, real, model)
-    # classification of a key as ids / data by FEMAttribute.from_dict
-    from femio import FEMAttribute
+        ctx.disagree('keys written for nodal data', {'names': list(nd.keys()), 'tsFlag': f}, real, model)
+    # classification of a key as time_series flag / ids / data by FEMAttribute.from_dict
     for k in real:
-        t = C.Toks(ctx.driver.ask(f'c05k.kind 1 {C.esc(k)}'))
+        t = C.Toks(ctx.driver.ask(f'c05k.kind 1 {f} {C.esc(k)}'))
         assert t.tok() == 'ok'
         mk = t.tok()
-        try:
-            a = FEMAttribute.from_dict('x', {k: np.array([1]), ('zz/data' if mk == 'i' else 'zz/ids'): np.array([2.])}, silent=True)
-            rk = 'i' if int(a.ids[0]) == 1 else 'd'
-        except Exception:
-            rk = 'x'
+        rk = real_kind(k)
+        ctx.count('key-tie: kind ' + rk)
         if rk != mk:
-            ctx.disagree('classification of key ' + k, {'key': k}, rk, mk)
+            ctx.disagree('classification of key ' + k, {'key': k, 'tsFlag': f}, rk, mk)
+
+
+PROBE_KEYS = ['p/ids', 'p/data', 'p/time_series', 'time_series', 'ids', 'data', 'ts/time_series/ids', 'time_series/data',
+              'p/tet/time_series', 'p/ids_time_series', 'p/time_series_ids', 'p/time_series_data', 'solids/data', 'p/series',
+              'p/time_serie', 'p/Time_series', 'p/data/time_series', 'x_ids/tet2/ids', 'p/', 'p/idsx']
+
+
+def from_dict_tie(ctx):
+    """tie T for `attrFromDict`: (a) keys nobody writes (a kind word inside / in front / in another case ...) are classified
+    by the tree as by the model, for the detected Cfg.tsFlag; (b) FEMAttribute.from_dict on dicts of 1-4 entries in every
+    order: entries of a real to_dict of a time series and of an ordinary attribute, some dropped / doubled under another
+    prefix / replaced by a key of no kind, the flag entry True or False.  Every value is an array of the kind its key has
+    (checked in (a)), so that the arrays themselves are never the reason for an error: raises <-> none; else the ids, data and
+    time_series of the attribute are those of the entries the model names"""
+    if ctx.driver is None:
+        return
+    from femio import FEMAttribute
+    f = ts_flag()
+    ctx.extra['cfg_detected'] = ('three keys: time_series flag written for time series and honoured on load (Cfg.fixed)' if f else
+                                 'two keys: no place for the time_series flag (Cfg.twoKey; known finding F6d)')
+    kinds = {}
+    for k in PROBE_KEYS:
+        mk = C.Toks(ctx.driver.ask(f'c05k.kind 1 {f} {C.esc(k)}'))
+        assert mk.tok() == 'ok'
+        mk = mk.tok()
+        kinds[k] = real_kind(k)
+        ctx.count('from_dict-tie: probe key of kind ' + kinds[k])
+        if kinds[k] != mk:
+            ctx.disagree('classification of key ' + k, {'key': k, 'tsFlag': f}, kinds[k], mk)
+            return
+    r = ctx.rng
+    pool = [k for k in PROBE_KEYS]
+    for j in range(ctx.n(60, 300)):
+        keys = r.sample(['p/ids', 'p/data', 'p/time_series'], r.randint(1, 3)) + r.sample(pool, r.choice([0, 0, 1, 2]))
+        keys = list(dict.fromkeys(keys))
+        r.shuffle(keys)
+        entries, dic = [], {}
+        for n, k in enumerate(keys):
+            kd = kinds[k] if kinds[k] != 'x' else r.choice('ids')
+            if kd == 's':
+                tag = r.choice([1, 1, 0])
+                dic[k] = np.array(bool(tag))
+            elif kd == 'i':
+                tag = 10 + n
+                dic[k] = np.array([tag])
+            else:
+                tag = 20 + n
+                dic[k] = np.full((1, 1, 1), float(tag))
+            entries.append((k, tag))
+        t = C.Toks(ctx.driver.ask(f'c05k.fromdict {f} ' + C.enc_list(entries, lambda e: f'{C.esc(e[0])} {e[1]}')))
+        assert t.tok() == 'ok'
+        model = None if t.tok() == 'none' else (t.nat(), t.nat(), t.nat())
+        try:
+            with contextlib.redirect_stdout(io.StringIO()):
+                a = FEMAttribute.from_dict('x', dic, silent=True)
+            real = (int(np.ravel(a.ids)[0]), int(np.ravel(a.data)[0]), int(bool(a.time_series)))
+        except Exception as e:
+            real, why = None, f'{type(e).__name__}: {e}'[:120]
+        ctx.count(f'from_dict-tie: {len(entries)} entries -> ' + ('raises' if real is None else 'time series' if real[2] else 'attribute'))
+        if real != model:
+            ctx.disagree('FEMAttribute.from_dict', {'entries': entries, 'tsFlag': f}, real if real is not None else why,
+                         model if model is not None else 'none')
 
 
 def trace_tie(ctx):
@@ -1446,6 +1616,7 @@ QUICK_FIXED = [
 
 def run(ctx):
     SKIPPED.clear()
+    _TS_FLAG.clear()
     try:
         run_streams(ctx)
     finally:
@@ -1488,6 +1659,9 @@ def probe_mesh_only_first_read(ctx):
 
 
 def run_streams(ctx):
+    ctx.count('tree: time_series key ' + ('written for time series (three-key scheme)' if ts_flag() else
+                                          'NOT written (two-key scheme: F6d)'))
+    from_dict_tie(ctx)
     trace_tie(ctx)
     for name, j in C.corpus_cases(PROP):
         ctx.count('corpus')
